@@ -26,7 +26,7 @@ Qed.
 Lemma In_add x y l : In x (add y l) <-> In x l \/ x = y.
 Proof.
   unfold add. destruct (mem_str y l) eqn:M.
-  - apply mem_str_In in M. split; [tauto|intros [H|->]; assumption].
+  - apply mem_str_In in M. split; [tauto|]. intros [H|E]; [exact H|subst; exact M].
   - rewrite in_app_iff; cbn. intuition.
 Qed.
 Lemma NoDup_rm y l : NoDup l -> NoDup (rm y l).
@@ -39,21 +39,23 @@ Proof.
   - rewrite in_app_iff; cbn. intros [A|[A|[]]]; [tauto|]. apply M; left; congruence.
   - apply IH; [exact Hr|]. intros A; apply M; right; exact A.
 Qed.
-Lemma length_rm_in y l : NoDup l -> In y l -> Z.of_nat (List.length (rm y l)) = (Z.of_nat (List.length l) - 1)%Z.
+Lemma rm_notin y l : ~ In y l -> rm y l = l.
 Proof.
-  unfold rm. induction l as [|z r IH]; cbn; intros H Hin; [tauto|].
-  inversion H as [|? ? Hz Hr]; subst.
-  destruct (String.eqb_spec y z) as [->|N]; cbn.
-  - assert (E : filter (fun y => negb (String.eqb z y)) r = r).
-    { clear IH H Hr Hin. induction r as [|w r IH]; cbn; [reflexivity|].
-      destruct (String.eqb_spec z w) as [->|N]; [exfalso; apply Hz; left; reflexivity|].
-      cbn. f_equal. apply IH. intros A; apply Hz; right; exact A. }
-    rewrite E. lia.
-  - destruct Hin as [E|Hin]; [congruence|]. rewrite Nat2Z.inj_succ, IH by assumption. lia.
+  unfold rm. induction l as [|w r IH]; cbn [filter]; intros H; [reflexivity|].
+  destruct (String.eqb_spec y w) as [->|N]; [exfalso; apply H; left; reflexivity|].
+  cbn [negb]. f_equal. apply IH. intros A; apply H; right; exact A.
 Qed.
-Lemma length_add_new y l : ~ In y l -> Z.of_nat (List.length (add y l)) = (Z.of_nat (List.length l) + 1)%Z.
+Lemma length_rm_in y l : NoDup l -> In y l -> S (List.length (rm y l)) = List.length l.
 Proof.
-  intros H. unfold add. apply mem_str_false in H. rewrite H, app_length; cbn. lia.
+  induction l as [|z r IH]; intros H Hin; [destruct Hin|].
+  inversion H as [|? ? Hz Hr]; subst. unfold rm in *. cbn [filter].
+  destruct (String.eqb_spec y z) as [->|N]; cbn [negb List.length].
+  - fold (rm z r). rewrite (rm_notin z r Hz). reflexivity.
+  - destruct Hin as [E|Hin]; [congruence|]. f_equal. apply IH; assumption.
+Qed.
+Lemma length_add_new y l : ~ In y l -> List.length (add y l) = S (List.length l).
+Proof.
+  intros H. unfold add. apply mem_str_false in H. rewrite H, app_length. cbn [List.length]. lia.
 Qed.
 
 (* association lists *)
@@ -89,12 +91,552 @@ Qed.
 Lemma find_upd s id g id' : (forall t, tid (g t) = tid t) ->
   find_task (upd s id g) id' = if String.eqb id id' then option_map g (find_task s id') else find_task s id'.
 Proof.
-  intros Hg. unfold find_task, upd; cbn. induction (ts s) as [|t r IH]; cbn; [destruct (String.eqb id id'); reflexivity|].
-  destruct (String.eqb_spec (tid t) id) as [E|N].
-  - rewrite Hg, E. destruct (String.eqb_spec id id') as [->|N'].
-    + rewrite String.eqb_refl; reflexivity.
-    + destruct (String.eqb_spec id id'); [congruence|]. rewrite IH. destruct (String.eqb_spec id id'); [congruence|reflexivity].
-  - destruct (String.eqb_spec (tid t) id') as [E'|N'].
-    + destruct (String.eqb_spec id id'); [congruence|reflexivity].
-    + exact IH.
+  intros Hg. unfold find_task, upd; cbn [ts].
+  induction (ts s) as [|t r IH]; cbn [map find].
+  - destruct (String.eqb id id'); reflexivity.
+  - destruct (String.eqb_spec (tid t) id) as [E|N].
+    + rewrite Hg. destruct (String.eqb_spec (tid t) id') as [E'|N'].
+      * replace id' with id by congruence. rewrite String.eqb_refl. reflexivity.
+      * exact IH.
+    + destruct (String.eqb_spec (tid t) id') as [E'|N'].
+      * destruct (String.eqb_spec id id'); [congruence|reflexivity].
+      * exact IH.
+Qed.
+
+(* projections through the gauge / entity setters *)
+Lemma ts_set_g s i r p : ts (set_g s i r p) = ts s. Proof. reflexivity. Qed.
+Lemma ts_g_set s x l : ts (g_set s x l) = ts s. Proof. destruct x; reflexivity. Qed.
+Lemma ents_g_set s x l : ents (g_set s x l) = ents s. Proof. destruct x; reflexivity. Qed.
+Lemma find_g_set s x l id : find_task (g_set s x l) id = find_task s id.
+Proof. unfold find_task; rewrite ts_g_set; reflexivity. Qed.
+Lemma find_g_add s id x id' : find_task (g_add s id x) id' = find_task s id'.
+Proof. apply find_g_set. Qed.
+Lemma find_g_delete s id x id' : find_task (g_delete s id x) id' = find_task s id'.
+Proof. apply find_g_set. Qed.
+Lemma find_g_update s id n o id' : find_task (g_update s id n o) id' = find_task s id'.
+Proof. unfold g_update. destruct (mem_str id (g_get s o)); [|reflexivity]. rewrite find_g_add, find_g_delete; reflexivity. Qed.
+Lemma ents_g_add s id x : ents (g_add s id x) = ents s. Proof. apply ents_g_set. Qed.
+Lemma ents_g_delete s id x : ents (g_delete s id x) = ents s. Proof. apply ents_g_set. Qed.
+Lemma ents_g_update s id n o : ents (g_update s id n o) = ents s.
+Proof. unfold g_update. destruct (mem_str id (g_get s o)); [|reflexivity]. rewrite ents_g_add, ents_g_delete; reflexivity. Qed.
+Lemma find_set_ents s e id : find_task (set_ents s e) id = find_task s id. Proof. reflexivity. Qed.
+Lemma ents_upd s id g : ents (upd s id g) = ents s. Proof. reflexivity. Qed.
+Lemma g_get_upd s id g x : g_get (upd s id g) x = g_get s x. Proof. destruct x; reflexivity. Qed.
+Lemma g_get_set_ents s e x : g_get (set_ents s e) x = g_get s x. Proof. destruct x; reflexivity. Qed.
+Lemma g_get_g_set s x l y : g_get (g_set s x l) y = if tstate_eqb x y then l else g_get s y.
+Proof. destruct x, y; reflexivity. Qed.
+
+Definition runningb (t : trec) : bool := match sto t with Some v => tstate_eqb (v_state v) SRunning | None => false end.
+Definition pausedb (t : trec) : bool := match sto t with Some v => tstate_eqb (v_state v) SPaused | None => false end.
+Definition loadedb (t : trec) : bool := match mem t with Some _ => true | None => false end.
+Definition activeb (t : trec) : bool := loadedb t && runningb t.
+Definition lpausedb (t : trec) : bool := loadedb t && pausedb t.
+
+(* a task record: absent; stored but not loaded (only while a reload is in progress); or loaded with
+   memory = store, running with its readers or paused without *)
+Definition good_task (t : trec) : Prop :=
+  match mem t, sto t with
+  | None, _ => started t = 0%Z /\ reg t = 0%Z
+  | Some m, Some v =>
+      v_state m = v_state v /\ v_state v <> SInitial
+      /\ (v_state v = SRunning -> started t = 1%Z /\ reg t = 1%Z)
+      /\ (v_state v = SPaused -> started t = 0%Z /\ reg t = 0%Z /\ v_reason v = true /\ v_reason m = true)
+  | Some _, None => False
+  end.
+
+(* everything the invariant says about one task id *)
+Definition in_quit (s : st) (tg id : string) : Prop := exists e, alookup (ents s) tg = Some e /\ In id (quit e).
+Definition task_ok (s : st) (id : string) : Prop :=
+  ~ In id (gi s)
+  /\ match find_task s id with
+     | None => ~ In id (gr s) /\ ~ In id (gp s) /\ forall tg, ~ in_quit s tg id
+     | Some t =>
+         tid t = id /\ good_task t
+         /\ (In id (gr s) <-> activeb t = true) /\ (In id (gp s) <-> lpausedb t = true)
+         /\ (forall tg, in_quit s tg id <-> (ttarget t = tg /\ activeb t = true))
+         /\ (activeb t = true -> alookup (ents s) (ttarget t) <> None)
+     end.
+Definition ent_ok (s : st) : Prop :=
+  forall tg e, alookup (ents s) tg = Some e -> NoDup (quit e) /\ refcnt e = Z.of_nat (List.length (quit e)).
+Definition g_ok (s : st) : Prop := NoDup (gi s) /\ NoDup (gr s) /\ NoDup (gp s).
+Record GInv (s : st) : Prop := { gi_task : forall id, task_ok s id; gi_ent : ent_ok s; gi_g : g_ok s }.
+
+Lemma find_task_tid s id t : find_task s id = Some t -> tid t = id.
+Proof. unfold find_task; intros H. apply find_some in H. destruct H as [_ E]. apply String.eqb_eq in E; exact E. Qed.
+
+Lemma init_ginv : GInv init.
+Proof.
+  constructor.
+  - intros id. unfold task_ok; cbn. repeat split; try tauto. intros tg [e [H _]]; discriminate.
+  - intros tg e H; discriminate.
+  - repeat split; constructor.
+Qed.
+
+(* ---------- frame: what a transformer must leave alone for task_ok of another id to survive ---------- *)
+Definition ents_frame (s s' : st) (id' : string) : Prop :=
+  (forall tg e', alookup (ents s') tg = Some e' ->
+     (exists e, alookup (ents s) tg = Some e /\ (In id' (quit e') <-> In id' (quit e)))
+     \/ (alookup (ents s) tg = None /\ ~ In id' (quit e')))
+  /\ (forall tg e, alookup (ents s) tg = Some e -> In id' (quit e) -> alookup (ents s') tg <> None).
+
+Lemma in_quit_frame s s' id' tg : ents_frame s s' id' -> (in_quit s' tg id' <-> in_quit s tg id').
+Proof.
+  intros [F1 F2]. split.
+  - intros [e' [A B]]. destruct (F1 tg e' A) as [[e [A' E]]|[_ N]]; [|tauto]. exists e; split; [exact A'|apply E; exact B].
+  - intros [e [A B]]. pose proof (F2 tg e A B) as N. destruct (alookup (ents s') tg) as [e'|] eqn:A'; [|congruence].
+    exists e'; split; [exact A'|]. destruct (F1 tg e' A') as [[e0 [A0 E]]|[A0 _]]; [|congruence].
+    rewrite A in A0; injection A0 as <-. apply E; exact B.
+Qed.
+
+Record frame (s s' : st) (id' : string) : Prop := {
+  f_find : find_task s' id' = find_task s id';
+  f_g : forall x, In id' (g_get s' x) <-> In id' (g_get s x);
+  f_e : ents_frame s s' id';
+}.
+
+Lemma task_ok_frame s s' id' : frame s s' id' -> task_ok s id' -> task_ok s' id'.
+Proof.
+  intros [Hf Hg He] [Hi Ht]. unfold task_ok. rewrite Hf.
+  pose proof (Hg SInitial) as G1; pose proof (Hg SRunning) as G2; pose proof (Hg SPaused) as G3; cbn in G1, G2, G3.
+  split; [rewrite G1; exact Hi|].
+  destruct (find_task s id') as [t|].
+  - destruct Ht as [T [Gd [R [P [Q E]]]]].
+    split; [exact T|]. split; [exact Gd|]. split; [rewrite G2; exact R|]. split; [rewrite G3; exact P|]. split.
+    + intros tg. rewrite (in_quit_frame s s' id' tg He). apply Q.
+    + intros A. pose proof (proj2 (Q (ttarget t)) (conj eq_refl A)) as [e [Ae Be]].
+      apply (proj2 He (ttarget t) e Ae Be).
+  - destruct Ht as [R [P Q]]. rewrite G2, G3. split; [exact R|]. split; [exact P|].
+    intros tg X. apply (in_quit_frame s s' id' tg He) in X. apply (Q tg X).
+Qed.
+
+Lemma ents_frame_same s s' id' : ents s' = ents s -> ents_frame s s' id'.
+Proof.
+  intros E. unfold ents_frame. rewrite E. split.
+  - intros tg e' H; left; exists e'; split; [exact H|tauto].
+  - intros tg e H _; congruence.
+Qed.
+
+Lemma frame_refl s id' : frame s s id'.
+Proof. constructor; [reflexivity|tauto|apply ents_frame_same; reflexivity]. Qed.
+
+Lemma frame_trans s1 s2 s3 id' : frame s1 s2 id' -> frame s2 s3 id' -> frame s1 s3 id'.
+Proof.
+  intros [F1 G1 [E1a E1b]] [F2 G2 [E2a E2b]]. constructor.
+  - congruence.
+  - intros x. rewrite G2. apply G1.
+  - split.
+    + intros tg e3 A3. destruct (E2a tg e3 A3) as [[e2 [A2 I2]]|[A2 N3]].
+      * destruct (E1a tg e2 A2) as [[e1 [A1 I1]]|[A1 N2]].
+        -- left; exists e1; split; [exact A1|]. rewrite I2; exact I1.
+        -- right; split; [exact A1|]. rewrite I2; exact N2.
+      * destruct (alookup (ents s1) tg) as [e1|] eqn:A1; [|right; split; [reflexivity|exact N3]].
+        left; exists e1; split; [reflexivity|]. split; [tauto|]. intros B1. exfalso. apply (E1b tg e1 A1 B1). exact A2.
+    + intros tg e1 A1 B1. pose proof (E1b tg e1 A1 B1) as N2.
+      destruct (alookup (ents s2) tg) as [e2|] eqn:A2; [|congruence].
+      destruct (E1a tg e2 A2) as [[e1' [A1' I]]|[A1' _]]; [|congruence].
+      rewrite A1 in A1'; injection A1' as <-. apply (E2b tg e2 A2). apply I; exact B1.
+Qed.
+
+(* primitives *)
+Lemma frame_upd s id g id' : (forall t, tid (g t) = tid t) -> id' <> id -> frame s (upd s id g) id'.
+Proof.
+  intros Hg N. constructor.
+  - rewrite find_upd by exact Hg. destruct (String.eqb_spec id id'); [congruence|reflexivity].
+  - intros x; rewrite g_get_upd; tauto.
+  - apply ents_frame_same; reflexivity.
+Qed.
+
+Lemma frame_upsert s tg e e1 id' : alookup (ents s) tg = Some e -> (In id' (quit e1) <-> In id' (quit e)) ->
+  frame s (set_ents s (aupsert (ents s) tg e1)) id'.
+Proof.
+  intros A I. constructor; [reflexivity|intros x; rewrite g_get_set_ents; tauto|]. split; cbn [set_ents ents].
+  - intros tg' e' H. destruct (String.eqb_spec tg tg') as [<-|N].
+    + rewrite alookup_aupsert_same in H; injection H as <-. left; exists e; split; assumption.
+    + rewrite alookup_aupsert_other in H by exact N. left; exists e'; split; [exact H|tauto].
+  - intros tg' e0 H _. destruct (String.eqb_spec tg tg') as [<-|N].
+    + rewrite alookup_aupsert_same; discriminate.
+    + rewrite alookup_aupsert_other by exact N; congruence.
+Qed.
+
+Lemma frame_insert s tg e1 id' : alookup (ents s) tg = None -> ~ In id' (quit e1) ->
+  frame s (set_ents s (aupsert (ents s) tg e1)) id'.
+Proof.
+  intros A I. constructor; [reflexivity|intros x; rewrite g_get_set_ents; tauto|]. split; cbn [set_ents ents].
+  - intros tg' e' H. destruct (String.eqb_spec tg tg') as [<-|N].
+    + rewrite alookup_aupsert_same in H; injection H as <-. right; split; assumption.
+    + rewrite alookup_aupsert_other in H by exact N. left; exists e'; split; [exact H|tauto].
+  - intros tg' e0 H _. destruct (String.eqb_spec tg tg') as [<-|N]; [congruence|].
+    rewrite alookup_aupsert_other by exact N; congruence.
+Qed.
+
+Lemma frame_remove s tg e id' : alookup (ents s) tg = Some e -> ~ In id' (quit e) ->
+  frame s (set_ents s (aremove (ents s) tg)) id'.
+Proof.
+  intros A I. constructor; [reflexivity|intros x; rewrite g_get_set_ents; tauto|]. split; cbn [set_ents ents].
+  - intros tg' e' H. destruct (String.eqb_spec tg tg') as [<-|N].
+    + rewrite alookup_aremove_same in H; discriminate.
+    + rewrite alookup_aremove_other in H by exact N. left; exists e'; split; [exact H|tauto].
+  - intros tg' e0 H B. destruct (String.eqb_spec tg tg') as [<-|N].
+    + rewrite A in H; injection H as <-; tauto.
+    + rewrite alookup_aremove_other by exact N; congruence.
+Qed.
+
+Lemma frame_g_set s x l id' : (In id' l <-> In id' (g_get s x)) -> frame s (g_set s x l) id'.
+Proof.
+  intros I. constructor; [apply find_g_set| |apply ents_frame_same; apply ents_g_set].
+  intros y. rewrite g_get_g_set. destruct (tstate_eqb_spec x y) as [<-|N]; [exact I|tauto].
+Qed.
+Lemma frame_g_add s id x id' : id' <> id -> frame s (g_add s id x) id'.
+Proof. intros N. apply frame_g_set. rewrite In_add. intuition congruence. Qed.
+Lemma frame_g_delete s id x id' : id' <> id -> frame s (g_delete s id x) id'.
+Proof. intros N. apply frame_g_set. rewrite In_rm. intuition congruence. Qed.
+Lemma frame_g_update s id n o id' : id' <> id -> frame s (g_update s id n o) id'.
+Proof.
+  intros N. unfold g_update. destruct (mem_str id (g_get s o)); [|apply frame_refl].
+  eapply frame_trans; [apply frame_g_delete; exact N|apply frame_g_add; exact N].
+Qed.
+
+(* ---------- release ---------- *)
+Lemma two_distinct (l : list string) a b : NoDup l -> In a l -> In b l -> a <> b -> (List.length l >= 2)%nat.
+Proof.
+  intros N A B D. destruct l as [|x [|y r]]; cbn in *; try tauto; try lia.
+  destruct A as [<-|[]], B as [<-|[]]; congruence.
+Qed.
+
+Definition reset_counters (t : trec) : trec :=
+  {| tid := tid t; ttarget := ttarget t; auto_off := auto_off t; mem := mem t; sto := sto t; started := 0; reg := (reg t - 1)%Z |}.
+
+Lemma release_unfold s id tg :
+  release s id tg =
+  match alookup (ents s) tg with
+  | None => s
+  | Some e =>
+      if mem_str id (quit e)
+      then let s1 := upd s id reset_counters in
+           let e1 := {| refcnt := (refcnt e - 1)%Z; quit := rm id (quit e) |} in
+           if (refcnt e1 =? 0)%Z then set_ents s1 (aremove (ents s1) tg) else set_ents s1 (aupsert (ents s1) tg e1)
+      else if (refcnt e =? 0)%Z then set_ents s (aremove (ents s) tg) else set_ents s (aupsert (ents s) tg e)
+  end.
+Proof.
+  unfold release. destruct (alookup (ents s) tg) as [e|]; [|reflexivity].
+  destruct (mem_str id (quit e)); reflexivity.
+Qed.
+
+Lemma frame_release s id tg id' : ent_ok s -> id' <> id -> frame s (release s id tg) id'.
+Proof.
+  intros EO N. rewrite release_unfold. destruct (alookup (ents s) tg) as [e|] eqn:A; [|apply frame_refl].
+  destruct (EO tg e A) as [ND RC].
+  destruct (mem_str id (quit e)) eqn:M; cbn zeta.
+  - apply mem_str_In in M.
+    eapply frame_trans; [apply (frame_upd s id reset_counters id'); [reflexivity|exact N]|].
+    cbn [refcnt quit]. destruct (Z.eqb_spec (refcnt e - 1) 0) as [Z0|Z0].
+    + apply (frame_remove _ tg e); [exact A|]. intros B.
+      pose proof (two_distinct _ _ _ ND M B (fun E => N (eq_sym E))). lia.
+    + apply (frame_upsert _ tg e); [exact A|]. cbn. rewrite In_rm. intuition congruence.
+  - destruct (Z.eqb_spec (refcnt e) 0) as [Z0|Z0].
+    + apply (frame_remove _ tg e); [exact A|]. intros B. destruct (quit e); [tauto|cbn in RC; lia].
+    + apply (frame_upsert _ tg e); [exact A|tauto].
+Qed.
+
+Lemma ent_ok_upsert s tg e1 : ent_ok s -> NoDup (quit e1) -> refcnt e1 = Z.of_nat (List.length (quit e1)) ->
+  ent_ok (set_ents s (aupsert (ents s) tg e1)).
+Proof.
+  intros EO A B tg' e H. cbn [set_ents ents] in H. destruct (String.eqb_spec tg tg') as [<-|N].
+  - rewrite alookup_aupsert_same in H; injection H as <-; split; assumption.
+  - rewrite alookup_aupsert_other in H by exact N. apply (EO tg' e H).
+Qed.
+Lemma ent_ok_remove s tg : ent_ok s -> ent_ok (set_ents s (aremove (ents s) tg)).
+Proof.
+  intros EO tg' e H. cbn [set_ents ents] in H. destruct (String.eqb_spec tg tg') as [<-|N].
+  - rewrite alookup_aremove_same in H; discriminate.
+  - rewrite alookup_aremove_other in H by exact N. apply (EO tg' e H).
+Qed.
+Lemma ent_ok_same s s' : ents s' = ents s -> ent_ok s -> ent_ok s'.
+Proof. intros E EO tg e H. rewrite E in H. apply (EO tg e H). Qed.
+
+Lemma ent_ok_release s id tg : ent_ok s -> ent_ok (release s id tg).
+Proof.
+  intros EO. rewrite release_unfold. destruct (alookup (ents s) tg) as [e|] eqn:A; [|exact EO].
+  destruct (EO tg e A) as [ND RC].
+  assert (EO1 : ent_ok (upd s id reset_counters)) by (apply (ent_ok_same s); [reflexivity|exact EO]).
+  destruct (mem_str id (quit e)) eqn:M; cbn zeta.
+  - apply mem_str_In in M. cbn [refcnt quit]. destruct (Z.eqb_spec (refcnt e - 1) 0).
+    + apply ent_ok_remove; exact EO1.
+    + apply ent_ok_upsert; [exact EO1|apply NoDup_rm; exact ND|]. cbn.
+      pose proof (length_rm_in id (quit e) ND M). lia.
+  - destruct (Z.eqb_spec (refcnt e) 0); [apply ent_ok_remove; exact EO|apply ent_ok_upsert; assumption].
+Qed.
+
+Lemma g_get_release s id tg x : g_get (release s id tg) x = g_get s x.
+Proof.
+  rewrite release_unfold. destruct (alookup (ents s) tg) as [e|]; [|reflexivity].
+  destruct (mem_str id (quit e)); cbn zeta.
+  - destruct (_ =? 0)%Z; rewrite g_get_set_ents, g_get_upd; reflexivity.
+  - destruct (_ =? 0)%Z; rewrite g_get_set_ents; reflexivity.
+Qed.
+
+(* what release does to the released id itself *)
+Lemma find_release_self s id tg :
+  find_task (release s id tg) id =
+  match alookup (ents s) tg with
+  | Some e => if mem_str id (quit e) then option_map reset_counters (find_task s id) else find_task s id
+  | None => find_task s id
+  end.
+Proof.
+  rewrite release_unfold. destruct (alookup (ents s) tg) as [e|]; [|reflexivity].
+  destruct (mem_str id (quit e)); cbn zeta.
+  - destruct (_ =? 0)%Z; rewrite find_set_ents, find_upd by reflexivity; rewrite String.eqb_refl; reflexivity.
+  - destruct (_ =? 0)%Z; reflexivity.
+Qed.
+
+Lemma in_quit_release s id tg tg' : ent_ok s ->
+  (in_quit (release s id tg) tg' id <-> (in_quit s tg' id /\ tg' <> tg)).
+Proof.
+  intros EO. rewrite release_unfold. destruct (alookup (ents s) tg) as [e|] eqn:A.
+  2:{ split; [intros H; split; [exact H|]|tauto]. intros ->. destruct H as [e [A' _]]; congruence. }
+  destruct (EO tg e A) as [ND RC].
+  assert (X : forall s' : st, ents s' = ents s ->
+     (forall e1, ~ In id (quit e1) ->
+       (in_quit (set_ents s' (aupsert (ents s') tg e1)) tg' id <-> in_quit s tg' id /\ tg' <> tg))
+     /\ (in_quit (set_ents s' (aremove (ents s') tg)) tg' id <-> in_quit s tg' id /\ tg' <> tg)).
+  { intros s' E. split; [intros e1 N1|]; unfold in_quit; cbn [set_ents ents]; rewrite E.
+    - destruct (String.eqb_spec tg tg') as [<-|N].
+      + rewrite alookup_aupsert_same. split; [intros [e0 [H B]]; injection H as <-; tauto|tauto].
+      + rewrite alookup_aupsert_other by exact N. split; [intros H; split; [exact H|congruence]|tauto].
+    - destruct (String.eqb_spec tg tg') as [<-|N].
+      + rewrite alookup_aremove_same. split; [intros [e0 [H _]]; discriminate|tauto].
+      + rewrite alookup_aremove_other by exact N. split; [intros H; split; [exact H|congruence]|tauto]. }
+  destruct (mem_str id (quit e)) eqn:M; cbn zeta.
+  - destruct (X (upd s id reset_counters) eq_refl) as [X1 X2]. cbn [refcnt quit].
+    destruct (_ =? 0)%Z; [exact X2|]. apply X1. cbn. rewrite In_rm; tauto.
+  - apply mem_str_false in M. destruct (X s eq_refl) as [X1 X2].
+    destruct (_ =? 0)%Z; [exact X2|]. 
+    (* the entity is written back unchanged: id was not in its quit list *)
+    unfold in_quit; cbn [set_ents ents]. destruct (String.eqb_spec tg tg') as [<-|N].
+    + rewrite alookup_aupsert_same, A. split; [intros [e0 [H B]]; injection H as <-; tauto|].
+      intros [[e0 [H B]] _]. injection H as <-. tauto.
+    + rewrite alookup_aupsert_other by exact N. split; [intros H; split; [exact H|congruence]|tauto].
+Qed.
+
+(* ---------- update_state ---------- *)
+Definition with_sto (v : option view) (t : trec) : trec :=
+  {| tid := tid t; ttarget := ttarget t; auto_off := auto_off t; mem := mem t; sto := v; started := started t; reg := reg t |}.
+Definition with_mem (v : option view) (t : trec) : trec :=
+  {| tid := tid t; ttarget := ttarget t; auto_off := auto_off t; mem := v; sto := sto t; started := started t; reg := reg t |}.
+
+Lemma update_state_some s id new guard reason fg fp s' :
+  update_state s id new guard reason fg fp = Some s' ->
+  exists t v, find_task s id = Some t /\ sto t = Some v
+    /\ (guard = [] \/ existsb (tstate_eqb (v_state v)) guard = true)
+    /\ s' = g_update (upd s id (with_sto (Some {| v_state := new; v_reason := reason |}))) id new (v_state v).
+Proof.
+  unfold update_state. destruct fg; [discriminate|].
+  destruct (find_task s id) as [t|]; [|discriminate]. destruct (sto t) as [v|] eqn:S; [|discriminate].
+  destruct guard as [|g0 gr0]; cbn [negb].
+  - destruct fp; [discriminate|]. intros H; injection H as <-. exists t, v. repeat split; auto.
+  - destruct (existsb (tstate_eqb (v_state v)) (g0 :: gr0)) eqn:G; cbn [negb]; [|discriminate].
+    destruct fp; [discriminate|]. intros H; injection H as <-. exists t, v. repeat split; auto.
+Qed.
+
+Lemma g_ok_g_set s x l : g_ok s -> NoDup l -> g_ok (g_set s x l).
+Proof. intros [A [B C]] N. destruct x; cbn; repeat split; assumption. Qed.
+Lemma g_ok_g_add s id x : g_ok s -> g_ok (g_add s id x).
+Proof. intros G. apply g_ok_g_set; [exact G|]. apply NoDup_add. destruct G as [A [B C]]; destruct x; assumption. Qed.
+Lemma g_ok_g_delete s id x : g_ok s -> g_ok (g_delete s id x).
+Proof. intros G. apply g_ok_g_set; [exact G|]. apply NoDup_rm. destruct G as [A [B C]]; destruct x; assumption. Qed.
+Lemma g_ok_g_update s id n o : g_ok s -> g_ok (g_update s id n o).
+Proof. intros G. unfold g_update. destruct (mem_str id (g_get s o)); [|exact G]. apply g_ok_g_add, g_ok_g_delete, G. Qed.
+Lemma g_ok_same s s' : gi s' = gi s -> gr s' = gr s -> gp s' = gp s -> g_ok s -> g_ok s'.
+Proof. unfold g_ok. intros -> -> ->. tauto. Qed.
+
+Lemma frame_update_state s id new guard reason fg fp s' id' :
+  update_state s id new guard reason fg fp = Some s' -> id' <> id -> frame s s' id'.
+Proof.
+  intros H N. destruct (update_state_some _ _ _ _ _ _ _ _ H) as [t [v [_ [_ [_ ->]]]]].
+  eapply frame_trans; [apply (frame_upd s id (with_sto (Some {| v_state := new; v_reason := reason |})) id'); [reflexivity|exact N]|apply frame_g_update; exact N].
+Qed.
+Lemma ents_update_state s id new guard reason fg fp s' :
+  update_state s id new guard reason fg fp = Some s' -> ents s' = ents s.
+Proof. intros H. destruct (update_state_some _ _ _ _ _ _ _ _ H) as [t [v [_ [_ [_ ->]]]]]. rewrite ents_g_update; reflexivity. Qed.
+Lemma g_ok_update_state s id new guard reason fg fp s' :
+  update_state s id new guard reason fg fp = Some s' -> g_ok s -> g_ok s'.
+Proof.
+  intros H G. destruct (update_state_some _ _ _ _ _ _ _ _ H) as [t [v [_ [_ [_ ->]]]]].
+  apply g_ok_g_update. apply (g_ok_same s); try reflexivity; exact G.
+Qed.
+
+(* gauge membership of the updated id *)
+Lemma g_update_self s id n o x : n <> o -> mem_str id (g_get s o) = true ->
+  (In id (g_get (g_update s id n o) x) <-> (x = n \/ (x <> o /\ In id (g_get s x)))).
+Proof.
+  intros D M. unfold g_update; rewrite M. unfold g_add, g_delete.
+  rewrite g_get_g_set. destruct (tstate_eqb_spec n x) as [<-|Nx].
+  - rewrite In_add. tauto.
+  - rewrite g_get_g_set. destruct (tstate_eqb_spec o x) as [<-|Ox].
+    + rewrite In_rm. split; [tauto|]. intros [E|[E _]]; congruence.
+    + split; [intros H; right; split; [congruence|exact H]|]. intros [E|[_ H]]; [congruence|exact H].
+Qed.
+
+(* ---------- the invariant "except one id", and the transient shape of a task about to be started ---------- *)
+Record GInvX (s : st) (id : string) : Prop := {
+  gx_task : forall id', id' <> id -> task_ok s id'; gx_ent : ent_ok s; gx_g : g_ok s }.
+
+Lemma GInv_X s id : GInv s -> GInvX s id.
+Proof. intros [A B C]; constructor; auto. Qed.
+Lemma GInvX_full s id : GInvX s id -> task_ok s id -> GInv s.
+Proof.
+  intros [A B C] T; constructor; auto. intros id'. destruct (String.eqb_spec id' id) as [->|N]; auto.
+Qed.
+Lemma GInvX_frame s s' id : (forall id', id' <> id -> frame s s' id') -> ent_ok s' -> g_ok s' -> GInvX s id -> GInvX s' id.
+Proof.
+  intros F E G [A _ _]. constructor; auto. intros id' N. apply (task_ok_frame s s' id' (F id' N)). apply A; exact N.
+Qed.
+
+(* loaded, memory = store, no readers, not referenced by any entity, counted under its stored state only *)
+Definition fresh_loaded (s : st) (id : string) : Prop :=
+  exists t m v, find_task s id = Some t /\ tid t = id /\ mem t = Some m /\ sto t = Some v /\ v_state m = v_state v
+    /\ started t = 0%Z /\ reg t = 0%Z /\ (forall tg, ~ in_quit s tg id) /\ (forall x, In id (g_get s x) <-> x = v_state v).
+
+Lemma set_mem_upd s id v : set_mem s id v = upd s id (with_mem v). Proof. reflexivity. Qed.
+Lemma set_sto_upd s id v : set_sto s id v = upd s id (with_sto v). Proof. reflexivity. Qed.
+
+Lemma in_quit_same s s' tg id : ents s' = ents s -> (in_quit s' tg id <-> in_quit s tg id).
+Proof. unfold in_quit; intros ->; tauto. Qed.
+
+(* ---------- pause_with ---------- *)
+Definition P := {| v_state := SPaused; v_reason := true |}.
+
+Lemma pause_with_unfold s id guard fg fp :
+  pause_with s id guard fg fp =
+  match update_state s id SPaused guard true fg fp with
+  | None =>
+      match guard with
+      | _ :: _ => (s, false)
+      | [] => match find_task s id with
+              | None => (s, false)
+              | Some t => match mem t with None => (s, false) | Some _ => (release (upd s id (with_mem (Some P))) id (ttarget t), false) end
+              end
+      end
+  | Some s1 =>
+      match find_task s1 id with
+      | None => (s1, true)
+      | Some t => match mem t with None => (s1, true) | Some _ => (release (upd s1 id (with_mem (Some P))) id (ttarget t), true) end
+      end
+  end.
+Proof.
+  unfold pause_with. destruct (update_state s id SPaused guard true fg fp) as [s1|].
+  - destruct guard as [|g0 gl]; destruct (find_task s1 id) as [t|]; try reflexivity; destruct (mem t); reflexivity.
+  - destruct guard as [|g0 gl]; [|reflexivity]. destruct (find_task s id) as [t|]; [|reflexivity]. destruct (mem t); reflexivity.
+Qed.
+
+Lemma frame_pause_with s id guard fg fp id' : ent_ok s -> id' <> id -> frame s (fst (pause_with s id guard fg fp)) id'.
+Proof.
+  intros EO N. rewrite pause_with_unfold.
+  destruct (update_state s id SPaused guard true fg fp) as [s1|] eqn:U.
+  - pose proof (frame_update_state _ _ _ _ _ _ _ _ id' U N) as F1.
+    pose proof (ents_update_state _ _ _ _ _ _ _ _ U) as E1.
+    destruct (find_task s1 id) as [t|]; [|exact F1]. destruct (mem t); [|exact F1]. cbn [fst].
+    eapply frame_trans; [exact F1|]. eapply frame_trans; [apply (frame_upd s1 id (with_mem (Some P)) id'); [reflexivity|exact N]|].
+    apply frame_release; [|exact N]. apply (ent_ok_same s); [cbn; exact E1|exact EO].
+  - destruct guard as [|g0 gl]; [|apply frame_refl]. destruct (find_task s id) as [t|]; [|apply frame_refl]. destruct (mem t); [|apply frame_refl].
+    cbn [fst]. eapply frame_trans; [apply (frame_upd s id (with_mem (Some P)) id'); [reflexivity|exact N]|].
+    apply frame_release; [|exact N]. apply (ent_ok_same s); [reflexivity|exact EO].
+Qed.
+
+Lemma ent_ok_pause_with s id guard fg fp : ent_ok s -> ent_ok (fst (pause_with s id guard fg fp)).
+Proof.
+  intros EO. rewrite pause_with_unfold.
+  destruct (update_state s id SPaused guard true fg fp) as [s1|] eqn:U.
+  - pose proof (ents_update_state _ _ _ _ _ _ _ _ U) as E1.
+    assert (EO1 : ent_ok s1) by (apply (ent_ok_same s); assumption).
+    destruct (find_task s1 id) as [t|]; [|exact EO1]. destruct (mem t); [|exact EO1]. cbn [fst].
+    apply ent_ok_release. apply (ent_ok_same s1); [reflexivity|exact EO1].
+  - destruct guard as [|g0 gl]; [|exact EO]. destruct (find_task s id) as [t|]; [|exact EO]. destruct (mem t); [|exact EO].
+    cbn [fst]. apply ent_ok_release. apply (ent_ok_same s); [reflexivity|exact EO].
+Qed.
+
+Lemma g_ok_release s id tg : g_ok s -> g_ok (release s id tg).
+Proof.
+  intros G. apply (g_ok_same s); try exact G.
+  - exact (g_get_release s id tg SInitial). - exact (g_get_release s id tg SRunning). - exact (g_get_release s id tg SPaused).
+Qed.
+
+Lemma g_ok_pause_with s id guard fg fp : g_ok s -> g_ok (fst (pause_with s id guard fg fp)).
+Proof.
+  intros G. rewrite pause_with_unfold.
+  destruct (update_state s id SPaused guard true fg fp) as [s1|] eqn:U.
+  - pose proof (g_ok_update_state _ _ _ _ _ _ _ _ U G) as G1.
+    destruct (find_task s1 id) as [t|]; [|exact G1]. destruct (mem t); [|exact G1]. cbn [fst].
+    apply g_ok_release. apply (g_ok_same s1); try reflexivity; exact G1.
+  - destruct guard as [|g0 gl]; [|exact G]. destruct (find_task s id) as [t|]; [|exact G]. destruct (mem t); [|exact G].
+    cbn [fst]. apply g_ok_release. apply (g_ok_same s); try reflexivity; exact G.
+Qed.
+
+Lemma g_update_collapse s id n o : (forall x, In id (g_get s x) <-> x = o) ->
+  forall x, In id (g_get (g_update s id n o) x) <-> x = n.
+Proof.
+  intros H x. assert (M : mem_str id (g_get s o) = true) by (apply mem_str_In, H; reflexivity).
+  unfold g_update; rewrite M. unfold g_add, g_delete. rewrite g_get_g_set.
+  destruct (tstate_eqb_spec n x) as [<-|Nx].
+  - rewrite In_add. tauto.
+  - rewrite g_get_g_set. destruct (tstate_eqb_spec o x) as [<-|Ox].
+    + rewrite In_rm. split; [tauto|congruence].
+    + rewrite H. split; congruence.
+Qed.
+
+(* the shape of a task as the entity sees it: active (readers on, referenced by exactly its target's entity)
+   or idle (no readers, referenced by nobody) *)
+Definition wired (s : st) (id : string) (t : trec) : Prop :=
+  (started t = 1%Z /\ reg t = 1%Z /\ forall tg, in_quit s tg id <-> tg = ttarget t)
+  \/ (started t = 0%Z /\ reg t = 0%Z /\ forall tg, ~ in_quit s tg id).
+
+Lemma pause_self s id guard fg fp t m v s1 :
+  ent_ok s -> find_task s id = Some t -> tid t = id -> mem t = Some m -> sto t = Some v ->
+  wired s id t -> (forall x, In id (g_get s x) <-> x = v_state v) -> ~ In id (gi s) \/ v_state v = SInitial ->
+  update_state s id SPaused guard true fg fp = Some s1 ->
+  task_ok (fst (pause_with s id guard fg fp)) id.
+Proof.
+  intros EO F T Mm Ss W G _ U. rewrite pause_with_unfold, U.
+  destruct (update_state_some _ _ _ _ _ _ _ _ U) as [t' [v' [F' [S' [_ ->]]]]].
+  rewrite F in F'; injection F' as <-. rewrite Ss in S'; injection S' as <-.
+  set (sa := upd s id (with_sto (Some P))).
+  rewrite find_g_update. unfold sa at 1. rewrite find_upd by reflexivity. rewrite String.eqb_refl, F. cbn [option_map with_sto mem].
+  rewrite Mm. cbn [fst with_sto ttarget].
+  set (s2 := upd (g_update sa id SPaused (v_state v)) id (with_mem (Some P))).
+  assert (E2 : ents s2 = ents s) by (unfold s2, sa; cbn; rewrite ents_g_update; reflexivity).
+  assert (F2 : find_task s2 id = Some (with_mem (Some P) (with_sto (Some P) t))).
+  { unfold s2. rewrite find_upd by reflexivity. rewrite String.eqb_refl, find_g_update. unfold sa.
+    rewrite find_upd by reflexivity. rewrite String.eqb_refl, F. reflexivity. }
+  assert (G2 : forall x, In id (g_get s2 x) <-> x = SPaused).
+  { intros x. unfold s2. rewrite g_get_upd. apply g_update_collapse. intros y. unfold sa. rewrite g_get_upd. apply G. }
+  assert (EO2 : ent_ok s2) by (apply (ent_ok_same s); assumption).
+  unfold task_ok.
+  assert (GI : forall x, g_get (release s2 id (ttarget t)) x = g_get s2 x) by (intros x; apply g_get_release).
+  split. { change (gi (release s2 id (ttarget t))) with (g_get (release s2 id (ttarget t)) SInitial). rewrite GI, G2. discriminate. }
+  rewrite find_release_self, F2.
+  assert (Q : forall tg, ~ in_quit (release s2 id (ttarget t)) tg id).
+  { intros tg H. apply (in_quit_release s2 id (ttarget t) tg EO2) in H. destruct H as [H N].
+    rewrite (in_quit_same s s2 tg id E2) in H. destruct W as [[_ [_ W]]|[_ [_ W]]]; [apply N, W, H|apply (W tg H)]. }
+  assert (Fin : exists tf, (match alookup (ents s2) (ttarget t) with
+                            | Some e => if mem_str id (quit e) then option_map reset_counters (Some (with_mem (Some P) (with_sto (Some P) t)))
+                                        else Some (with_mem (Some P) (with_sto (Some P) t))
+                            | None => Some (with_mem (Some P) (with_sto (Some P) t)) end) = Some tf
+                           /\ tid tf = id /\ ttarget tf = ttarget t /\ mem tf = Some P /\ sto tf = Some P /\ started tf = 0%Z /\ reg tf = 0%Z).
+  { rewrite E2. destruct W as [[W1 [W2 W3]]|[W1 [W2 W3]]].
+    - pose proof (proj2 (W3 (ttarget t)) eq_refl) as [e [A B]]. rewrite A. apply mem_str_In in B. rewrite B.
+      eexists; split; [reflexivity|]. cbn. repeat split; try assumption; lia.
+    - destruct (alookup (ents s) (ttarget t)) as [e|] eqn:A.
+      + destruct (mem_str id (quit e)) eqn:B.
+        * exfalso. apply (W3 (ttarget t)). exists e; split; [exact A|apply mem_str_In; exact B].
+        * eexists; split; [reflexivity|]. cbn. repeat split; assumption.
+      + eexists; split; [reflexivity|]. cbn. repeat split; assumption. }
+  destruct Fin as [tf [-> [T1 [T2 [T3 [T4 [T5 T6]]]]]]].
+  split; [exact T1|]. split.
+  { unfold good_task. rewrite T3, T4. cbn. repeat split; try discriminate; assumption. }
+  assert (A0 : activeb tf = false) by (unfold activeb, runningb; rewrite T4; cbn; apply andb_false_r).
+  assert (L0 : lpausedb tf = true) by (unfold lpausedb, loadedb, pausedb; rewrite T3, T4; reflexivity).
+  split. { change (gr (release s2 id (ttarget t))) with (g_get (release s2 id (ttarget t)) SRunning). rewrite GI, G2, A0. split; discriminate. }
+  split. { change (gp (release s2 id (ttarget t))) with (g_get (release s2 id (ttarget t)) SPaused). rewrite GI, G2, L0. tauto. }
+  split. { intros tg. rewrite A0. split; [intros H; exfalso; apply (Q tg H)|intros [_ H]; discriminate]. }
+  rewrite A0; discriminate.
 Qed.
